@@ -381,3 +381,42 @@ Proof.
   split; [split; [reflexivity|discriminate]|]. split; [split; [reflexivity|discriminate]|].
   split; apply elem_of_list_here.
 Qed.
+
+(** *** why [late_event_ignored_l] needs [pod_key p = pod_key q]: a pod of the same namespace and name but
+    another owner kind has another key; the late event of the earlier pod then (rightly) releases the
+    earlier pod's own IP, so the tables do change - the live pod's IP is untouched.
+    Bare pod A (web-0, uA) bound to ip2, deleted; statefulset pod B (web-0, uB) created, bound to ip3;
+    A's delete event is first in the queue. *)
+Definition bare_pod (name uid : string) : pod :=
+  {| pd_ns := L "ns1"; pd_name := L name; pd_uid := L uid; pd_kind := KBare; pd_app := []; pd_pool := [];
+     pd_policy := 0; pd_ranges := []; pd_phase := 0; pd_node := []; pd_ips := [] |}.
+Definition h_other_key : list pop := [
+  PIpam (OConfigure conf1 false []);
+  PEnv (EStsSet (L "ns1", L "web") (Some 1));
+  PEnv (EPodPut (bare_pod "web-0" "uA"));
+  PEnv (EInformer web0);
+  PFilter web0 [L "node1"] (orc None None []) no_faults;
+  PBind (L "ns1") (L "web-0") (L "uA") (L "node1") (orc None (Some ip2) []) no_faults;
+  PEnv (EPodDelete web0);
+  PEnv (EPodPut (spod "web-0" "uB" []));
+  PEnv (EInformer web0);
+  PFilter web0 [L "node1"] (orc None None []) no_faults;
+  PBind (L "ns1") (L "web-0") (L "uB") (L "node1") (orc None (Some ip3) []) no_faults ].
+
+Lemma late_event_other_key_releases :
+  let w := prun (world0 false nodes1) h_other_key in
+  let o := PEvent 0 (orc None None [ip2]) [] no_faults in
+  WInv w ∧ (pstep w o).2 = ROk ∧
+  ∃ q p, w_queue w !! 0%nat = Some q ∧ w_pods w !! pk q = Some p ∧ live_bound p ∧ pd_ips p = [ip3] ∧
+         pod_key p ≠ pod_key q ∧ w_ipam (pstep w o).1 ≠ w_ipam w ∧
+         is_Some (i_alloc (w_ipam w) !! ip2) ∧ i_alloc (w_ipam (pstep w o).1) !! ip2 = None ∧
+         i_alloc (w_ipam (pstep w o).1) !! ip3 = i_alloc (w_ipam w) !! ip3.
+Proof.
+  intros w o. split; [apply winv_reachable, wf_hist_b_sound; vm_compute; reflexivity|].
+  split; [vm_compute; reflexivity|].
+  eexists. eexists. split; [vm_compute; reflexivity|]. split; [vm_compute; reflexivity|].
+  split; [split; [reflexivity|discriminate]|]. split; [reflexivity|].
+  split; [vm_compute; discriminate|].
+  split; [intros E; apply (f_equal (λ i, i_alloc i !! ip2)) in E; vm_compute in E; discriminate E|].
+  split; [vm_compute; eexists; reflexivity|]. split; vm_compute; reflexivity.
+Qed.
